@@ -462,6 +462,9 @@ def suite_crash(seed, tier):
             nkeep = 3 if many else len(case["files"]) - 1
             fewer = {**case, "files": case["files"][-nkeep:] if not many else case["files"][:nkeep]}
             fpaths = paths[-nkeep:] if not many else paths[:nkeep]
+            nfl = len(case["files"])
+            keep_idx = {"same": list(range(nfl)), "threshold": list(range(nfl)),
+                        "fewer-files": list(range(nkeep)) if many else list(range(nfl - nkeep, nfl))}
             for name, v, vp in (("same", same, paths), ("threshold", chg, paths), ("fewer-files", fewer, fpaths)):
                 (tmp / f"fresh-{name}").mkdir()
                 run_impl(v, tmp / f"fresh-{name}", None, paths=vp)
@@ -491,7 +494,14 @@ def suite_crash(seed, tier):
                 (d / "zz-foreign.txt").write_text("x")
                 (d / "a-foreign.npy").write_text("x")
                 before = read_dir(d, case["nf"])
-                run_impl(v, d, None, paths=vp)
+                try:
+                    run_impl(v, d, None, paths=vp)
+                except Exception as e:
+                    r.bad.append({"suite": "crash", "what": f"crash at file action {cp} followed by a re-run "
+                                  f"({name}) in the same directory fails ({type(e).__name__}: {str(e)[:120]}) "
+                                  "although the same run succeeds in a fresh directory",
+                                  "case": case, "crash_at": cp, "rerun": name, "rerun_files": keep_idx[name]})
+                    break
                 got = read_dir(d, case["nf"])
                 if len(terms) < (12 if tier == "quick" else 150) and (cp % 2 == 0 or tier != "quick"):
                     terms.append(f"check_mr fexp {cfg_term(v['cfg'])} {files_term(v)} {dir_term(before)} "
@@ -500,12 +510,12 @@ def suite_crash(seed, tier):
                                  "leftovers": [n for n, _ in before]})
                 if not all(e in got for e in before if e[0] in ("zz-foreign.txt", "a-foreign.npy")):
                     r.bad.append({"suite": "crash", "what": "the re-run removed or changed a file it does not own",
-                                  "case": case, "crash_at": cp, "rerun": name})
+                                  "case": case, "crash_at": cp, "rerun": name, "rerun_files": keep_idx[name]})
                     break
                 if finals(got) != ref:
                     r.bad.append({"suite": "crash", "what": f"crash at file action {cp} followed by a re-run "
                                   f"({name}) in the same directory gives other final clusters than a fresh directory",
-                                  "case": case, "crash_at": cp, "rerun": name})
+                                  "case": case, "crash_at": cp, "rerun": name, "rerun_files": keep_idx[name]})
                     break
                 if v["cfg"]["cleanup"] and any(n.startswith("round-") for n, _ in got):
                     r.bad.append({"suite": "crash", "what": "cleanup left intermediate round files", "case": case})
@@ -575,6 +585,9 @@ def replay_c14(payload):
         v, vp = case, paths
         if name == "threshold":
             v = {**case, "cfg": {**case["cfg"], "thr": 0.9 if case["cfg"]["thr"] < 0.6 else 0.2}}
+        keep = fi.get("rerun_files")
+        if keep is not None:
+            v, vp = {**v, "files": [case["files"][i] for i in keep]}, [paths[i] for i in keep]
         elif name == "fewer-files":
             v, vp = {**case, "files": case["files"][1:]}, paths[1:]
         (tmp / "fresh").mkdir()
